@@ -340,4 +340,32 @@ theorem binvert_correct (u n : Nat) (hn : 1 ≤ n) (hodd : u % 2 = 1) :
 
 example : binvert 3 2 = 0xaaaaaaaaaaaaaaaaaaaaaaaaaaaaaaab := by decide +kernel
 
+
+/-- mpz_pow_ui / mpz_ui_pow_ui (mpz/n_pow_ui.c, value-level model: stripping of low zero limbs and bits,
+    powering inside one limb while it fits, merging of the left-over shift, the one-limb / two-limb /
+    many-limb square-and-multiply loops, final shift): the exact power for every base and exponent,
+    `0^0 = 1`, sign `(−)^e`.
+    `hfeas`: for `|b| ≥ 2` the result has at least `e` bits; `e < 2^58` keeps `rtwos_bits = e * btwos`
+    (unsigned long arithmetic in the C) from wrapping — beyond that the result is not addressable anyway. -/
+theorem n_pow_ui_spec (b : Int) (e : Nat) (heB : e < B) (hfeas : 2 ≤ b.natAbs → e * 64 < B) :
+    mpz_pow_ui b e = powSpec b e ∧ (0 ≤ b → mpz_ui_pow_ui b.toNat e = powSpec b e) ∧ mpz_pow_ui 0 0 = 1 := by
+  have h1 : mpz_pow_ui b e = powSpec b e := by
+    unfold mpz_pow_ui powSpec
+    rw [n_pow_ui_correct _ _ e (Norm_natLimbs _) heB (by rw [val_natLimbs]; exact hfeas), val_natLimbs]
+    congr 1
+    by_cases hb : b < 0
+    · simp only [hb, decide_true, if_true]; omega
+    · simp only [hb, decide_false, Bool.false_eq_true, if_false]; omega
+  refine ⟨h1, ?_, by decide⟩
+  intro hb0
+  unfold mpz_ui_pow_ui powSpec
+  rw [n_pow_ui_correct _ _ e (Norm_natLimbs _) heB (by rw [val_natLimbs]; intro h; exact hfeas (by omega)), val_natLimbs]
+  simp only [Bool.false_eq_true, if_false]
+  congr 1; omega
+
+-- non-vacuity: 0^0, a negative base with low zero limbs and bits, a two-limb base that shrinks to one limb
+example : mpz_pow_ui 0 0 = 1 ∧ mpz_ui_pow_ui 0 0 = 1 ∧ mpz_pow_ui 0 5 = 0 := by decide +kernel
+example : mpz_pow_ui (-(3 * 2 ^ 70)) 3 = (-(3 * 2 ^ 70)) ^ 3 ∧ mpz_pow_ui (5 * 2 ^ 62) 7 = (5 * 2 ^ 62) ^ 7 ∧
+    mpz_ui_pow_ui (2 ^ 64 - 1) 3 = (2 ^ 64 - 1) ^ 3 := by decide +kernel
+
 end Mpir.Powm
